@@ -71,7 +71,8 @@ func (sfc *StructFieldsCopy) createFieldSnippet(f *types.Var) snippet.Snippet {
 		if fc == nil {
 			fc = &FieldContext{}
 
-			fc.InSamePkg = x.Obj().Pkg().Path() == sfc.Pkg.Path()
+			// pkg of universe type like `error` is nil
+			fc.InSamePkg = x.Obj().Pkg() != nil && x.Obj().Pkg().Path() == sfc.Pkg.Path()
 			fc.PtrResultOrParam = true
 
 			for i := 0; i < x.NumMethods(); i++ {
